@@ -345,8 +345,43 @@ fn primes_case(rng: &mut Rng, iters: u64) {
     }
 }
 
+/// F7: 512-bit moduli pass the size guards but the arithmetic is only valid below 2^511
+fn f7() {
+    use yamaquasi::arith_montgomery::ZmodN;
+    let n: Uint = (Uint::ONE << 512u32) - Uint::ONE;
+    let r = catch_unwind(|| {
+        let zn = ZmodN::new(n);
+        let x = zn.from_int(n - Uint::ONE);
+        zn.to_int(zn.add(x, x))
+    });
+    match r {
+        Ok(v) if v == n - Uint::from(2u64) => {}
+        Ok(v) => fail("f7", format!("ZmodN::new(2^512-1): (n-1)+(n-1) = {v}, expected n-2")),
+        Err(_) => fail("f7", "ZmodN::new(2^512-1).add(from_int(n-1), from_int(n-1)): panic (carry == 0)".to_string()),
+    }
+}
+
+/// F8: ZmodN::inv overflows inside gcd_internal for moduli above ~501 bits
+fn f8() {
+    use std::str::FromStr;
+    use yamaquasi::arith_montgomery::ZmodN;
+    let n = Uint::from_str("6703903964971298549685655203658200727735441830485744609378315869103961967239521414949008820320193781439178349565160492399476044776167047126939852759958573").unwrap();
+    let r = catch_unwind(|| {
+        let zn = ZmodN::new(n);
+        let x = zn.from_int(n - Uint::ONE);
+        zn.inv(x).map(|i| zn.to_int(zn.mul(i, x)))
+    });
+    match r {
+        Ok(Some(v)) if v == Uint::ONE => {}
+        Ok(v) => fail("f8", format!("inv(n-1) * (n-1) = {v:?}")),
+        Err(_) => fail("f8", "ZmodN::new(n).inv(from_int(n-1)) for a 511-bit n: panic (arith_gcd::gcd_internal: attempt to multiply with overflow)".to_string()),
+    }
+}
+
 pub fn run(case: &str, rng: &mut Rng, iters: u64) -> bool {
     match case {
+        "f7" => f7(),
+        "f8" => f8(),
         "primes" => primes_case(rng, iters),
         "f10" => f10(),
         "chainmul" => chainmul(rng, iters, None),
